@@ -59,7 +59,7 @@ def run(tier, v):
     vlib.write_ndjson(req, [{"op": "db_sigs", "id": 0}])
     vlib.run_hv("db", req, sigs)
     fams = [("hdr4", 1 if tier == "thorough" else 13), ("hdr6", 1 if tier == "thorough" else 7), ("ttl", 1 if tier == "thorough" else 5),
-            ("opt", 1 if tier == "thorough" else 1), ("fopt", 1)]
+            ("opt", 1 if tier == "thorough" else 1), ("fopt", 1), ("kind", 1)]
     maxopts = 4 if tier == "thorough" else 3
     n_cases = n_nontrivial = 0
     states = trans = 0
@@ -135,7 +135,7 @@ def run(tier, v):
         "states": states + r2.distinct, "transitions": trans + r2.generated,
         "traces_validated_against_impl": n_cases + len(cases),
         "evaluations": n_cases + nwin, "distinct_nontrivial": n_nontrivial,
-        "rule": "headers: families hdr4/hdr6/ttl/opt/fopt (every flag byte x every pool option) of MC_C03 with strides %s and option sequences of length <= %d (every padding style, SYN and SYN+ACK); "
+        "rule": "headers: families hdr4/hdr6/ttl/opt/fopt (every flag byte x every pool option)/kind (every unknown option kind, SACK sizes, MSS and scale boundaries) of MC_C03 with strides %s and option sequences of length <= %d (every padding style, SYN and SYN+ACK); "
                 "non-trivial = headers for which a signature must be reported; windows: all 65536 windows x %d (mss, header term, timestamp, version) cases through detect_win_multiplicator"
                 % (dict(fams), maxopts, len(cases)),
         "samples": samples, "exhaustive": tier == "thorough",
